@@ -59,7 +59,17 @@ func runRace(u *universe, out *hx.Out, prop string, seed uint64, n int) {
 		var items []*raceItem
 		fds := &fdTable{}
 		ids := 1 + r.Intn(3)
+		// every second case is a storm on ONE message id: each message ten times, so that new arrivals keep
+		// coming while earlier ones of the same id are waiting for or holding its lock
+		copies := 3
+		storm := c%2 == 0
+		if storm {
+			ids, copies = 1, 10
+		}
 		base := newScene(u, r)
+		if storm {
+			base.signed, base.p2p = true, true // the RSA check of the envelope runs inside the per-id lock
+		}
 		for k := 0; k < ids; k++ {
 			sc := *base
 			if k > 0 {
@@ -69,7 +79,7 @@ func runRace(u *universe, out *hx.Out, prop string, seed uint64, n int) {
 			}
 			for _, d := range sc.history() {
 				in := d.build()
-				for rep := 0; rep < 3; rep++ {
+				for rep := 0; rep < copies; rep++ {
 					items = append(items, &raceItem{in: in, a: u.abstract(in, fds)})
 				}
 			}
@@ -163,33 +173,78 @@ func runRace(u *universe, out *hx.Out, prop string, seed uint64, n int) {
 			slot, round uint64
 			kind        int
 		}
-		counts := map[ck]int{}
-		accepted := 0
-		for _, it := range items {
-			out.Count("race_" + it.res.class)
-			if it.res.class == "panic" {
-				s.report("C08", "panic under concurrent validation: %s", it.res.panic)
-			}
-			if it.res.class != "accept" || it.a.cons == nil || it.a.val == nil {
-				continue
-			}
-			accepted++
-			sm := it.a.cons
-			kind := int(sm.Message.MsgType)
-			limit := 1
-			nn := len(it.a.val.committee)
-			if sm.Message.MsgType == specqbft.CommitMsgType && len(sm.Signers) > 1 {
-				kind, limit = 4, nn*((nn-1)/3+1)
-			}
-			for _, sg := range sm.Signers {
-				k := ck{it.a.val.vid, uint64(it.a.ssvMsg.MsgID.GetRoleType()), sg, uint64(sm.Message.Height), uint64(sm.Message.Round), kind}
-				counts[k]++
-				if counts[k] == limit+1 {
-					s.report("C09", "concurrent validation accepted %d messages of kind %d from signer %d in (slot %d, round %d), limit %d",
-						counts[k], kind, sg, k.slot, k.round, limit)
+		tally := func(items []*raceItem, label, how string) int {
+			counts := map[ck]int{}
+			accepted := 0
+			for _, it := range items {
+				out.Count(label + "_" + it.res.class)
+				if it.res.class == "panic" {
+					s.report("C08", "panic under concurrent validation: %s", it.res.panic)
+				}
+				if it.res.class != "accept" || it.a.cons == nil || it.a.val == nil {
+					continue
+				}
+				accepted++
+				sm := it.a.cons
+				kind := int(sm.Message.MsgType)
+				limit := 1
+				nn := len(it.a.val.committee)
+				if sm.Message.MsgType == specqbft.CommitMsgType && len(sm.Signers) > 1 {
+					kind, limit = 4, nn*((nn-1)/3+1)
+				}
+				for _, sg := range sm.Signers {
+					k := ck{it.a.val.vid, uint64(it.a.ssvMsg.MsgID.GetRoleType()), sg, uint64(sm.Message.Height), uint64(sm.Message.Round), kind}
+					counts[k]++
+					if counts[k] == limit+1 {
+						s.report("C09", "%s accepted %d messages of kind %d from signer %d in (slot %d, round %d), limit %d",
+							how, counts[k], kind, sg, k.slot, k.round, limit)
+					}
 				}
 			}
+			return accepted
 		}
+		accepted := tally(items, "race", "concurrent validation")
+		// Pipelines: every worker walks the SAME ordered run of one message id on a fresh validator, with no
+		// barrier between the messages - so while one worker still validates message j under the id's lock,
+		// others have finished their (duplicate, quickly rejected) copy of j and arrive with message j+1.
+		// Whatever the per-id lock's lifetime is, at most one copy of each message may be accepted.
+		pipes, pipeAccepted := 6, 0
+		for p := 0; p < pipes; p++ {
+			psc := newScene(u, r)
+			psc.slot = base.slot
+			psc.signed, psc.p2p = true, true // the signature check sits between the read and the update of the signer state
+			var ins []*input
+			for _, d := range psc.history() {
+				ins = append(ins, d.build())
+			}
+			pv := u.newValidator()
+			var all []*raceItem
+			var ready atomic.Int32
+			var pw sync.WaitGroup
+			for w := 0; w < workers; w++ {
+				mine := make([]*raceItem, len(ins))
+				for i, in := range ins {
+					mine[i] = &raceItem{in: in, a: u.abstract(in, fds)}
+				}
+				all = append(all, mine...)
+				pw.Add(1)
+				go func(mine []*raceItem) {
+					defer pw.Done()
+					ready.Add(1)
+					for ready.Load() < int32(workers) {
+					}
+					for _, it := range mine {
+						it.res = callValidator(pv, it.in)
+						it.done = true
+					}
+				}(mine)
+			}
+			if !waitOrHang(&pw, hangAfter) {
+				hang(s, out, fmt.Sprintf("%d workers each validating the same run of %d messages of one message id", workers, len(ins)))
+			}
+			pipeAccepted += tally(all, "pipe", "a pipeline of workers validating the same run of one message id")
+		}
+		out.Note("pipelines: %d, accepted %d", pipes, pipeAccepted)
 		out.Note("race: %d inputs, %d accepted", len(items), accepted)
 		out.End()
 	}
